@@ -351,10 +351,14 @@ pub fn exec(ctx: &mut Ctx, op: &str, p: &mut Toks) -> String {
         }
     };
     let res: Result<String, String> = match cmd.as_str() {
-        "shapes" => try_run(|| {
-            format!("{} params {} connect {} loops {}", net.layers.iter().map(r_layer_shapes).collect::<Vec<_>>().join(" "),
-                parameters_of(&net), net.connect.len(), net.loopbacks.len())
-        }),
+        "shapes" => {
+            let r = try_run(|| {
+                format!("{} params {} connect {} loops {}", net.layers.iter().map(r_layer_shapes).collect::<Vec<_>>().join(" "),
+                    parameters_of(&net), net.connect.len(), net.loopbacks.len())
+            });
+            crate::ops::props::net_oracles_parameters(ctx, &spec, &net);
+            r
+        }
         "connectmap" => {
             let mut v: Vec<(usize, usize)> = net.connect.iter().map(|(a, b)| (*a, *b)).collect();
             v.sort();
